@@ -6,11 +6,20 @@ From Falcon.C02 Require Import Model Spec.
 Import ListNotations.
 Open Scope Z_scope.
 
-Definition d_spat (v : val) : spat :=
+Definition d_cls (v : val) : cls :=
+  match dZ v with 0 => CDigit | 1 => CLower | 2 => CNotSlash | _ => CAny end.
+Definition d_quant (v : val) : quant :=
+  match dZ v with 0 => QOne | 1 => QPlus | _ => QStar end.
+(* [0; s] literal  [1; cls; quant]  [2; name; r]  [3; r] optional  [4; a; b] alternation  [5; a; b] sequence *)
+Fixpoint d_rx (v : val) : rx :=
   match v with
-  | L [I 1; pre; name; post] => SGroup (dstr pre) (dstr name) (dstr post)
-  | L [I _; pre] => SPrefix (dstr pre)
-  | _ => SPrefix []
+  | L [I 0; s] => RLit (dstr s)
+  | L [I 1; c; q] => RCls (d_cls c) (d_quant q)
+  | L [I 2; n; r] => RNamed (dstr n) (d_rx r)
+  | L [I 3; r] => ROpt (d_rx r)
+  | L [I 4; a; b] => RAlt (d_rx a) (d_rx b)
+  | L [I 5; a; b] => RSeq (d_rx a) (d_rx b)
+  | _ => RLit []
   end.
 
 Definition d_aop (v : val) : aop :=
@@ -18,15 +27,15 @@ Definition d_aop (v : val) : aop :=
   | L [I 0; tpl; rid; attrs; suffix] =>
     AddRoute (dstr tpl) (dN rid) (dlist (fun a => (dstr (nth_val 0 a), dbool (nth_val 1 a))) attrs)
              (dopt dstr suffix)
-  | L [I 1; id; p] => AddSink (dN id) (d_spat p)
+  | L [I 1; id; p] => AddSink (dN id) (d_rx p)
   | L [I 2; id; prefix; fb] => AddStatic (dN id) {| sr_prefix := dstr prefix; sr_fallback := dbool fb |}
-  | _ => AddSink 0%N (SPrefix [])
+  | _ => AddSink 0%N (RLit [])
   end.
 
 Definition v_value (x : value) : val :=
-  match x with VStr s => L [I 0; vstr s] | VInt z => L [I 1; I z] end.
+  match x with VStr s => L [I 0; vstr s] | VInt z => L [I 1; I z] | VOther s => L [I 2; vstr s] end.
 Definition v_params (p : params) : val := vlist (vpair vstr v_value) p.
-Definition v_groups (g : groups) : val := vlist (vpair vstr vstr) g.
+Definition v_groups (g : sgroups) : val := vlist (vpair vstr (vopt vstr)) g.
 
 Definition v_outcome (o : outcome) : val :=
   match o with
@@ -43,6 +52,7 @@ Definition v_outcome (o : outcome) : val :=
 Definition d_value (v : val) : value :=
   match v with
   | L [I 1; I z] => VInt z
+  | L [I 2; s] => VOther (dstr s)
   | L [I _; s] => VStr (dstr s)
   | _ => VStr []
   end.
@@ -53,7 +63,7 @@ Definition d_outcome (v : val) : outcome :=
   | L [I 1; al] => OOptions (dlist dstr al)
   | L [I 2; al] => O405 (dlist dstr al)
   | L [I 3] => O400
-  | L [I 4; id; g] => OSink (dN id) (dlist (fun p => (dstr (nth_val 0 p), dstr (nth_val 1 p))) g)
+  | L [I 4; id; g] => OSink (dN id) (dlist (fun p => (dstr (nth_val 0 p), dopt dstr (nth_val 1 p))) g)
   | L [I 5; id] => OStatic (dN id)
   | L [I 6] => O404
   | _ => OBroken
@@ -88,7 +98,14 @@ Definition run (v : val) : val :=
                     v_outcome (match dfs std_cinst std_multi (a_roots a) p with
                                | Some _ => O400
                                | None => spec_fallback (dbool sbs) (map d_aop ops) p
-                               end)]) qs)]
+                               end);
+                    (* the route the request is dispatched to, if any (meta methods are refused
+                       before routing) *)
+                    (if mem m Falcon.gen.Consts.META_METHODS then L []
+                     else match dfs std_cinst std_multi (a_roots a) p with
+                          | Some (rid, _) => L [vN rid]
+                          | None => L []
+                          end)]) qs)]
   | _ => L [I (-1)]
   end.
 
